@@ -132,6 +132,17 @@ func (m *TCPMuxDefault) GetConnByUfrag(ufrag string, isIPv6 bool, local net.IP) 
 	}
 
 	conn, ok := m.getConn(ufrag, isIPv6, local)
+	if ok && conn.handedOut {
+		// Pin the shared connection while another reference is created; if its last handle has
+		// already been released it is closed (or about to be) although it is still registered, and
+		// a fresh connection is needed. (A connection created from an inbound STUN message has no
+		// handle yet and is simply claimed.)
+		if acquireSharedRef(&conn.refs) {
+			defer conn.refs.Add(-1)
+		} else {
+			ok = false
+		}
+	}
 	if ok {
 		conn.ClearAliveTimer()
 	} else {
@@ -141,6 +152,8 @@ func (m *TCPMuxDefault) GetConnByUfrag(ufrag string, isIPv6 bool, local net.IP) 
 			return nil, err
 		}
 	}
+
+	conn.handedOut = true
 
 	return newSharedPacketConn(conn, &conn.refs), nil
 }
@@ -187,7 +200,7 @@ func (m *TCPMuxDefault) createConn(ufrag string, isIPv6 bool, local net.IP, from
 	go func() {
 		defer m.wg.Done()
 		<-conn.CloseChannel()
-		m.removeConnByUfragAndLocalHost(ufrag, connKey)
+		m.removeClosedConn(ufrag, connKey, conn)
 	}()
 
 	return conn, nil
@@ -378,6 +391,22 @@ func (m *TCPMuxDefault) RemoveConnByUfrag(ufrag string) {
 	// deadlocking TCP mux if (*tcpPacketConn).Close() blocks.
 	for _, conn := range removedConns {
 		m.closeAndLogError(conn)
+	}
+}
+
+// removeClosedConn unregisters exactly conn after it has been closed; a newer connection that was
+// registered under the same ufrag and local address in the meantime is left alone.
+func (m *TCPMuxDefault) removeClosedConn(ufrag string, localIPAddr ipAddr, conn *tcpPacketConn) {
+	m.mu.Lock()
+	defer m.mu.Unlock()
+
+	for _, byUfrag := range []map[string]map[ipAddr]*tcpPacketConn{m.connsIPv4, m.connsIPv6} {
+		if conns, ok := byUfrag[ufrag]; ok && conns[localIPAddr] == conn {
+			delete(conns, localIPAddr)
+			if len(conns) == 0 {
+				delete(byUfrag, ufrag)
+			}
+		}
 	}
 }
 
